@@ -233,6 +233,7 @@ typedef struct HonestOut {
 	int finished[2];
 	int step_capped, quiesced;
 	int setup_refused;              /* tls_init / tls_set_socket refused the configuration */
+	int hs_stream_tampered[2];      /* per direction: the bytes the receiver consumed during its handshake differ from what the sender sent */
 } HonestOut;
 
 /* run one client/server connection per plan (faults included) and collect what happened */
